@@ -16,7 +16,7 @@ func init() {
 		specs: func(tier string) []specRef {
 			return []specRef{genSpec(cmdsPkg, "VerifC33_steps", "step"),
 				// second sentence: abandoned calls (pipe-built client-side-caching MGET batch, pooled commands)
-				hsd(rootPkg, "VerifC33_abandon", nil, q(tier, 2, 3), 3000000, 3000, "abandoned", "completed", "done")}
+				hsd(rootPkg, "VerifC33_abandon", nil, 2, 3000000, 3000, "abandoned", "completed", "done")}
 		},
 	}
 	checks["C32"] = &checkDef{
